@@ -1,7 +1,733 @@
-//! Lane `filter` (stub).
-use crate::out::Out;
+//! Lane `filter` (C08): `ldap3::parse_filter` (+ lber encoding) and `parse_matched_values` (through
+//! `controls::MatchedValues`) vs Model.Filter, and the property oracles:
+//!   O  Lean `Spec.Filter.ofTlv` + `print` of the REAL BER == escaping-normalised input / generator tree
+//!   R  rejection classes named in the property; valid renderings are accepted; no panic.
+use crate::fmtx::*;
+use crate::out::{guarded, Out};
 use crate::rng::Rng;
+use bytes::BytesMut;
+use lber::structures::ASNTag;
+use lber::write::encode_into;
+use ldap3::controls::MatchedValues;
+use ldap3::parse_filter;
 
-pub fn run(_thorough: bool, _rng: Rng, out: Out) {
-    out.finish("stub lane: nothing generated yet");
+/// `( ) & | ! = * \ : ; . - ~ < > a d n 0 2 f` NUL 0xff  (same order as Driver.batchAlphabet)
+pub const ALPHABET: [u8; 23] = [
+    0x28, 0x29, 0x26, 0x7C, 0x21, 0x3D, 0x2A, 0x5C, 0x3A, 0x3B, 0x2E, 0x2D, 0x7E, 0x3C, 0x3E, 0x61, 0x64, 0x6E, 0x30,
+    0x32, 0x66, 0x00, 0xFF,
+];
+
+#[derive(Clone, PartialEq, Debug)]
+pub enum Outc {
+    Ok(Vec<u8>),
+    Reject,
+    Panic,
+}
+
+impl Outc {
+    fn show(&self) -> String {
+        match self {
+            Outc::Ok(b) => format!("ok {}", hex(b)),
+            Outc::Reject => String::from("reject"),
+            Outc::Panic => String::from("panic"),
+        }
+    }
+}
+
+/// the real thing: `parse_filter` then `into_structure` + `encode_into`
+pub fn real(s: &[u8]) -> Outc {
+    match guarded(|| {
+        parse_filter(s).map(|t| {
+            let mut buf = BytesMut::new();
+            encode_into(&mut buf, t.into_structure()).unwrap();
+            buf.to_vec()
+        })
+    }) {
+        Ok(Ok(b)) => Outc::Ok(b),
+        Ok(Err(())) => Outc::Reject,
+        Err(_) => Outc::Panic,
+    }
+}
+
+/// `parse_matched_values` is private; `MatchedValues::new` = parse, `expect("filter")`, encode
+pub fn real_mv(s: &str) -> Outc {
+    let owned = s.to_string();
+    match guarded(move || MatchedValues::new(owned).val.unwrap_or_default()) {
+        Ok(b) => Outc::Ok(b),
+        Err(msg) => {
+            if msg.starts_with("filter") {
+                Outc::Reject
+            } else {
+                Outc::Panic
+            }
+        }
+    }
+}
+
+// ---------------------------------------------------------------------------------------------
+// independent reading of RFC 4515 on the Rust side: trees, canonical printing, normalisation
+
+#[derive(Clone, Debug)]
+pub enum F {
+    And(Vec<F>),
+    Or(Vec<F>),
+    Not(Box<F>),
+    Eq(Vec<u8>, Vec<u8>),
+    Ge(Vec<u8>, Vec<u8>),
+    Le(Vec<u8>, Vec<u8>),
+    Approx(Vec<u8>, Vec<u8>),
+    Present(Vec<u8>),
+    Substr(Vec<u8>, Option<Vec<u8>>, Vec<Vec<u8>>, Option<Vec<u8>>),
+    Ext(Option<Vec<u8>>, Option<Vec<u8>>, Vec<u8>, bool),
+}
+
+fn is_special(b: u8) -> bool {
+    b == 0 || b == b'(' || b == b')' || b == b'*' || b == b'\\'
+}
+
+fn hexval(c: u8) -> Option<u8> {
+    match c {
+        b'0'..=b'9' => Some(c - b'0'),
+        b'a'..=b'f' => Some(c - b'a' + 10),
+        b'A'..=b'F' => Some(c - b'A' + 10),
+        _ => None,
+    }
+}
+
+/// value rendering; `choice`: None = canonical, Some(rng) = literal / \hh / \HH / mixed per byte
+fn esc_into(out: &mut Vec<u8>, v: &[u8], rng: &mut Option<&mut Rng>, ascii_only: bool) {
+    for &b in v {
+        let style = match rng {
+            None => {
+                if is_special(b) {
+                    1
+                } else {
+                    0
+                }
+            }
+            Some(r) => {
+                if is_special(b) || (ascii_only && b >= 0x80) {
+                    1 + r.below(4)
+                } else {
+                    match r.below(10) {
+                        0..=5 => 0,
+                        k => k - 5,
+                    }
+                }
+            }
+        };
+        if style == 0 {
+            out.push(b);
+        } else {
+            let lo = b"0123456789abcdef";
+            let up = b"0123456789ABCDEF";
+            let (t1, t2) = match style {
+                1 => (lo, lo),
+                2 => (up, up),
+                3 => (lo, up),
+                _ => (up, lo),
+            };
+            out.push(b'\\');
+            out.push(t1[(b >> 4) as usize]);
+            out.push(t2[(b & 15) as usize]);
+        }
+    }
+}
+
+fn item_into(out: &mut Vec<u8>, f: &F, rng: &mut Option<&mut Rng>, ascii_only: bool) {
+    match f {
+        F::Eq(a, v) | F::Ge(a, v) | F::Le(a, v) | F::Approx(a, v) => {
+            out.extend(a);
+            out.extend(match f {
+                F::Eq(..) => &b"="[..],
+                F::Ge(..) => &b">="[..],
+                F::Le(..) => &b"<="[..],
+                _ => &b"~="[..],
+            });
+            esc_into(out, v, rng, ascii_only);
+        }
+        F::Present(a) => {
+            out.extend(a);
+            out.extend(b"=*");
+        }
+        F::Substr(a, ini, any, fin) => {
+            out.extend(a);
+            out.push(b'=');
+            if let Some(v) = ini {
+                esc_into(out, v, rng, ascii_only);
+            }
+            out.push(b'*');
+            for v in any {
+                esc_into(out, v, rng, ascii_only);
+                out.push(b'*');
+            }
+            if let Some(v) = fin {
+                esc_into(out, v, rng, ascii_only);
+            }
+        }
+        F::Ext(rule, attr, v, dn) => {
+            if let Some(a) = attr {
+                out.extend(a);
+            }
+            if *dn {
+                out.extend(b":dn");
+            }
+            if let Some(r) = rule {
+                out.push(b':');
+                out.extend(r);
+            }
+            out.extend(b":=");
+            esc_into(out, v, rng, ascii_only);
+        }
+        _ => unreachable!(),
+    }
+}
+
+fn is_item(f: &F) -> bool {
+    !matches!(f, F::And(_) | F::Or(_) | F::Not(_))
+}
+
+fn print_into(out: &mut Vec<u8>, f: &F, rng: &mut Option<&mut Rng>, ascii_only: bool) {
+    out.push(b'(');
+    match f {
+        F::And(fs) | F::Or(fs) => {
+            out.push(if matches!(f, F::And(_)) { b'&' } else { b'|' });
+            for g in fs {
+                print_into(out, g, rng, ascii_only);
+            }
+        }
+        F::Not(g) => {
+            out.push(b'!');
+            print_into(out, g, rng, ascii_only);
+        }
+        _ => item_into(out, f, rng, ascii_only),
+    }
+    out.push(b')');
+}
+
+/// canonical RFC 4515 string of a tree (only the five special octets escaped, lower-case hex)
+pub fn canon(f: &F) -> Vec<u8> {
+    let mut o = vec![];
+    print_into(&mut o, f, &mut None, false);
+    o
+}
+
+/// escaping normal form of a string: every well-formed \hh replaced by the canonical rendering of
+/// its octet; outer parentheses supplied for a bare item
+pub fn norm_top(s: &[u8]) -> Vec<u8> {
+    let mut o = vec![];
+    let mut i = 0;
+    while i < s.len() {
+        if s[i] == b'\\' {
+            if i + 2 < s.len() {
+                if let (Some(x), Some(y)) = (hexval(s[i + 1]), hexval(s[i + 2])) {
+                    esc_into(&mut o, &[x * 16 + y], &mut None, false);
+                    i += 3;
+                    continue;
+                }
+            }
+            o.extend(&s[i..]);
+            break;
+        }
+        o.push(s[i]);
+        i += 1;
+    }
+    if s.first() == Some(&b'(') {
+        o
+    } else {
+        let mut p = vec![b'('];
+        p.extend(o);
+        p.push(b')');
+        p
+    }
+}
+
+// ---------------------------------------------------------------------------------------------
+// rejection classes named in the property, decided on the string alone
+
+pub const CLASSES: [&str; 6] =
+    ["unbalanced-parens", "trailing-text", "bad-escape", "raw-special-in-value", "empty-attr", "adjacent-asterisks"];
+
+/// bit i set = the string belongs to CLASSES[i] and must be rejected
+pub fn classes(s: &[u8]) -> u8 {
+    let mut m = 0u8;
+    // parentheses never stand for themselves, so every ( ) octet is structure
+    let mut depth: i64 = 0;
+    let mut neg = false;
+    let mut closed_at: Option<usize> = None;
+    for (i, &b) in s.iter().enumerate() {
+        if b == b'(' {
+            depth += 1;
+        } else if b == b')' {
+            depth -= 1;
+            if depth < 0 {
+                neg = true;
+            }
+            if depth == 0 && closed_at.is_none() {
+                closed_at = Some(i);
+            }
+        }
+    }
+    if neg || depth != 0 {
+        m |= 1;
+    }
+    // a complete parenthesised filter followed by more text
+    if s.first() == Some(&b'(') {
+        if let Some(k) = closed_at {
+            if k + 1 < s.len() && !neg {
+                m |= 2;
+            }
+        }
+    }
+    // a backslash not followed by two hex digits
+    let mut i = 0;
+    while i < s.len() {
+        if s[i] == b'\\' {
+            if i + 2 < s.len() && hexval(s[i + 1]).is_some() && hexval(s[i + 2]).is_some() {
+                i += 3;
+                continue;
+            }
+            m |= 4;
+            break;
+        }
+        i += 1;
+    }
+    // NUL anywhere; `(` right after an octet that is not ( & | ! ) ; `*` in the value of >= <= ~= :=
+    if s.contains(&0) {
+        m |= 8;
+    }
+    for i in 1..s.len() {
+        if s[i] == b'(' && !matches!(s[i - 1], b'(' | b'&' | b'|' | b'!' | b')') {
+            m |= 8;
+        }
+    }
+    // items = maximal paren-free stretches that contain an '='
+    let mut start = 0;
+    for i in 0..=s.len() {
+        if i == s.len() || s[i] == b'(' || s[i] == b')' {
+            let t = &s[start..i];
+            if let Some(e) = t.iter().position(|&c| c == b'=') {
+                if e > 0 && matches!(t[e - 1], b'>' | b'<' | b'~' | b':') && t[e + 1..].contains(&b'*') {
+                    m |= 8;
+                }
+                // nothing before the operator
+                if e == 0 || (e == 1 && matches!(t[0], b'>' | b'<' | b'~' | b':')) {
+                    m |= 16;
+                }
+            }
+            start = i + 1;
+        }
+    }
+    if s.windows(2).any(|w| w == b"**") {
+        m |= 32;
+    }
+    m
+}
+
+// ---------------------------------------------------------------------------------------------
+// generators
+
+const ATTRS: &[&str] = &[
+    "cn", "a", "objectClass", "2.5.4.3", "1.2", "0.9.2342.19200300.100.1.1", "cn;lang-en", "a;x-1;y", "x-y", "a1", "dn",
+    "d", "n0", "f-2", "2.0", "userCertificate;binary", "1.3.6.1.4.1.1466.0;x-a",
+];
+const RULES: &[&str] = &["2.5.13.5", "caseExactMatch", "dnfoo", "dn-x", "d", "dnn", "1.2.840.113556.1.4.803", "x", "DN1", "dN-"];
+/// accepted by the library only (RFC 4512 wants two arcs)
+const BARE_NUMBERS: &[&str] = &["2", "0", "10"];
+
+fn gen_value(rng: &mut Rng, nonempty: bool) -> Vec<u8> {
+    let n = match rng.below(10) {
+        0 => 0,
+        1..=6 => rng.range(1, 4),
+        _ => rng.range(1, 12),
+    } as usize;
+    let n = if nonempty && n == 0 { 1 } else { n };
+    (0..n)
+        .map(|_| match rng.below(10) {
+            0..=4 => *rng.pick(b"abcxyzJD 0123456789=<>~:;.-&|!,+\"#/@_"),
+            5 => *rng.pick(&[0u8, b'(', b')', b'*', b'\\']),
+            6 => rng.range(0x80, 0xff) as u8,
+            7 => *rng.pick(&[0xc4u8, 0x87, 0xe2, 0x82, 0xac, 0xf0, 0x9f]),
+            _ => rng.next() as u8,
+        })
+        .collect()
+}
+
+fn gen_attr(rng: &mut Rng, lib_ext: bool) -> Vec<u8> {
+    if lib_ext && rng.chance(1, 6) {
+        rng.pick(BARE_NUMBERS).as_bytes().to_vec()
+    } else {
+        rng.pick(ATTRS).as_bytes().to_vec()
+    }
+}
+
+pub fn gen_item(rng: &mut Rng, lib_ext: bool) -> F {
+    let a = gen_attr(rng, lib_ext);
+    match rng.below(12) {
+        0..=2 => F::Eq(a, gen_value(rng, false)),
+        3 => F::Ge(a, gen_value(rng, false)),
+        4 => F::Le(a, gen_value(rng, false)),
+        5 => F::Approx(a, gen_value(rng, false)),
+        6 => F::Present(a),
+        7..=9 => loop {
+            let ini = if rng.chance(1, 2) { Some(gen_value(rng, true)) } else { None };
+            let any: Vec<Vec<u8>> = (0..rng.below(4)).map(|_| gen_value(rng, true)).collect();
+            let fin = if rng.chance(1, 2) { Some(gen_value(rng, true)) } else { None };
+            if ini.is_some() || !any.is_empty() || fin.is_some() {
+                break F::Substr(a, ini, any, fin);
+            }
+        },
+        _ => {
+            let dn = rng.chance(1, 2);
+            let rule = if rng.chance(1, 2) { Some(rng.pick(RULES).as_bytes().to_vec()) } else { None };
+            let v = gen_value(rng, false);
+            if rng.chance(2, 3) {
+                F::Ext(rule, Some(a), v, dn)
+            } else {
+                // no type: the rule is mandatory (and may be spelled dn)
+                let r = rule.unwrap_or_else(|| rng.pick(&["dn", "2.5.13.2", "caseIgnoreMatch"]).as_bytes().to_vec());
+                F::Ext(Some(r), None, v, dn)
+            }
+        }
+    }
+}
+
+pub fn gen_tree(rng: &mut Rng, depth_left: u32, lib_ext: bool) -> F {
+    if depth_left == 0 || rng.chance(2, 5) {
+        return gen_item(rng, lib_ext);
+    }
+    match rng.below(5) {
+        0 | 1 => F::And((0..rng.below(6)).map(|_| gen_tree(rng, depth_left - 1, lib_ext)).collect()),
+        2 | 3 => F::Or((0..rng.below(6)).map(|_| gen_tree(rng, depth_left - 1, lib_ext)).collect()),
+        _ => F::Not(Box::new(gen_tree(rng, depth_left - 1, lib_ext))),
+    }
+}
+
+fn tree_depth(f: &F) -> usize {
+    match f {
+        F::And(fs) | F::Or(fs) => 1 + fs.iter().map(tree_depth).max().unwrap_or(0),
+        F::Not(g) => 1 + tree_depth(g),
+        _ => 0,
+    }
+}
+
+/// a rendering with random escaping choices; `bare`: without the outer parentheses (items only)
+pub fn render(f: &F, rng: &mut Rng, bare: bool, ascii_only: bool) -> Vec<u8> {
+    let mut o = vec![];
+    if bare && is_item(f) {
+        item_into(&mut o, f, &mut Some(rng), ascii_only);
+    } else {
+        print_into(&mut o, f, &mut Some(rng), ascii_only);
+    }
+    o
+}
+
+// ---------------------------------------------------------------------------------------------
+
+fn short(s: &[u8]) -> String {
+    if s.len() <= 120 {
+        hex(s)
+    } else {
+        format!("{}..fnv{:x}", hex(&s[..60]), fnv(s))
+    }
+}
+
+/// one string: M line, rejection-class R lines, O line when accepted; returns the real outcome
+fn check_string(out: &mut Out, s: &[u8], kind: &str) -> Outc {
+    let got = real(s);
+    out.case(&hex(s), matches!(got, Outc::Ok(_)) || s.len() >= 3);
+    out.stat(&format!("{}.{}", kind, match got { Outc::Ok(_) => "accepted", Outc::Reject => "rejected", Outc::Panic => "panic" }));
+    out.m(&format!("filter.parse {}", hex(s)), &got.show());
+    out.r(&format!("filter.no-panic {}", short(s)), got != Outc::Panic, "panic");
+    let cl = classes(s);
+    for (i, name) in CLASSES.iter().enumerate() {
+        if cl & (1 << i) != 0 {
+            out.stat(&format!("class.{}", name));
+            out.r(&format!("filter.reject.{} {}", name, short(s)), got == Outc::Reject, &format!("not rejected: {}", got.show()));
+        }
+    }
+    if let Outc::Ok(ber) = &got {
+        out.o(&format!("spec.filter.print {}", hex(ber)), &hex(&norm_top(s)));
+    }
+    got
+}
+
+/// RFC 5234 §2.3: the literal "dn" of `dnattrs` is case-insensitive; a string spelling it `DN`
+/// must get the BER of the lower-case spelling
+fn dn_case_check(out: &mut Out, s: &[u8], lower: &[u8]) {
+    let a = real(s);
+    let b = real(lower);
+    out.case(&hex(s), true);
+    out.m(&format!("filter.parse {}", hex(s)), &a.show());
+    out.r(
+        &format!("filter.rfc.dn-keyword-case {}", String::from_utf8_lossy(s)),
+        a == b,
+        &format!("dnattrs keyword matched case-sensitively: got {} but lower-case spelling gives {}", a.show(), b.show()),
+    );
+}
+
+fn word(k: usize, mut idx: usize, buf: &mut Vec<u8>) {
+    let base = buf.len();
+    buf.resize(base + k, 0);
+    for j in (0..k).rev() {
+        buf[base + j] = ALPHABET[idx % 23];
+        idx /= 23;
+    }
+}
+
+#[derive(Default)]
+struct Agg {
+    class_n: [u64; 6],
+    class_bad: [Option<Vec<u8>>; 6],
+    panic_at: Option<Vec<u8>>,
+    total: u64,
+    acc: u64,
+}
+
+/// outcomes of all words prefix ++ w, |w| = 2: one letter per word + FNV of the accepted BERs
+fn batch_core(out: &mut Out, prefix: &[u8], with_o: bool, g: &mut Agg) -> String {
+    let k = 2;
+    let total = 23usize.pow(k as u32);
+    let mut letters = String::with_capacity(total + 24);
+    let mut h: u64 = 0xcbf29ce484222325;
+    let mut s = Vec::with_capacity(prefix.len() + k);
+    for idx in 0..total {
+        s.clear();
+        s.extend(prefix);
+        word(k, idx, &mut s);
+        let got = real(&s);
+        let cl = classes(&s);
+        for i in 0..6 {
+            if cl & (1 << i) != 0 {
+                g.class_n[i] += 1;
+                if got != Outc::Reject && g.class_bad[i].is_none() {
+                    g.class_bad[i] = Some(s.clone());
+                }
+            }
+        }
+        match &got {
+            Outc::Ok(ber) => {
+                letters.push('k');
+                for b in ber {
+                    h = (h ^ *b as u64).wrapping_mul(0x100000001b3);
+                }
+                h = (h ^ 0x0a).wrapping_mul(0x100000001b3);
+                g.acc += 1;
+                out.case(&hex(&s), true);
+                if with_o {
+                    out.o(&format!("spec.filter.print {}", hex(ber)), &hex(&norm_top(&s)));
+                }
+            }
+            Outc::Reject => letters.push('r'),
+            Outc::Panic => {
+                letters.push('p');
+                if g.panic_at.is_none() {
+                    g.panic_at = Some(s.clone());
+                }
+            }
+        }
+    }
+    g.total += total as u64;
+    format!("{} {}", letters, h)
+}
+
+fn batch_finish(out: &mut Out, what: &str, g: Agg) {
+    out.evaluations += g.total - g.acc;
+    out.stat_n("exhaustive.strings", g.total);
+    out.stat_n("exhaustive.accepted", g.acc);
+    out.r(&format!("filter.no-panic {}", what), g.panic_at.is_none(), &format!("panic at {}", hex(g.panic_at.as_deref().unwrap_or(&[]))));
+    for i in 0..6 {
+        if g.class_n[i] > 0 {
+            out.stat_n(&format!("class.{}", CLASSES[i]), g.class_n[i]);
+            out.r(
+                &format!("filter.reject.{} {}", CLASSES[i], what),
+                g.class_bad[i].is_none(),
+                &format!("not rejected: {}", hex(g.class_bad[i].as_deref().unwrap_or(&[]))),
+            );
+        }
+    }
+}
+
+/// all words prefix ++ w, |w| = 2: one M line with the digest, one R line per class, O lines for accepted
+fn batch2(out: &mut Out, prefix: &[u8], with_o: bool) {
+    let mut g = Agg::default();
+    let ans = batch_core(out, prefix, with_o, &mut g);
+    out.m(&format!("filter.batch {} 2", hex(prefix)), &ans);
+    batch_finish(out, &format!("batch {} 2", hex(prefix)), g);
+}
+
+/// all words prefix ++ w, |w| = 3 (the driver evaluates the 23 sub-batches in parallel)
+fn batch3(out: &mut Out, prefix: &[u8], with_o: bool) {
+    let mut g = Agg::default();
+    let mut parts = vec![];
+    for a in ALPHABET {
+        let mut p = prefix.to_vec();
+        p.push(a);
+        parts.push(batch_core(out, &p, with_o, &mut g));
+    }
+    out.m(&format!("filter.batch3 {}", hex(prefix)), &parts.join(";"));
+    batch_finish(out, &format!("batch {} 3", hex(prefix)), g);
+}
+
+fn mutate(rng: &mut Rng, s: &[u8]) -> Vec<u8> {
+    let mut e = s.to_vec();
+    if e.is_empty() {
+        return vec![*rng.pick(&ALPHABET)];
+    }
+    let i = rng.below(e.len() as u64) as usize;
+    match rng.below(4) {
+        0 => e[i] = *rng.pick(&ALPHABET),
+        1 => {
+            e.remove(i);
+        }
+        2 => e.insert(i, *rng.pick(&ALPHABET)),
+        _ => e[i] = *rng.pick(b"()*\\=:"),
+    }
+    e
+}
+
+fn mv_case(out: &mut Out, s: &[u8]) {
+    if let Ok(st) = std::str::from_utf8(s) {
+        let got = real_mv(st);
+        out.case(&format!("mv {}", hex(s)), true);
+        out.stat(match got { Outc::Ok(_) => "mv.accepted", Outc::Reject => "mv.rejected", Outc::Panic => "mv.panic" });
+        out.m(&format!("mv.parse {}", hex(s)), &got.show());
+        out.r(&format!("mv.no-panic {}", short(s)), got != Outc::Panic, "panic");
+    }
+}
+
+pub fn run(thorough: bool, mut rng: Rng, mut out: Out) {
+    // ---- corpus: witnesses of past findings (F12), documented extensions, the unit tests of filter.rs
+    let corpus: &[&str] = &[
+        "(cn:dnfoo:=x)", "(:dn:=x)", "(cn:dn:=x)", "(:dn:2.4.6.8.10:=x)", "(&)", "(|)", "a=b",
+        "a=v", "(a=v)", "(a=v)garbage", "(a<=2)", "(a=*)", "(a=*v)", "(a=v*)", "(a=v*x*y)", "(a=f**)", "(a=v\\2ax)",
+        "(a=v\\2)", "(a=v\\0x)", "(2.5.4.3=v)", "(2.5.4.0=top)", "(2.5.04.0=top)", "(&(a=v)(b=x)(!(c=y)))",
+        "(ou:dn:=People)", "(cn:2.5.13.5:=J D)", "(a=\u{107})",
+        "(cn:dn:dn:=x)", "(cn:dn;x:=v)", "(cn:=x)", "(:=x)", "(=x)", "(>=x)", "()", "(", ")", "", "(!)", "(!(a=b)(c=d))",
+        "(a=b)(c=d)", "((a=b))", "(&(a=b)", "(a=b))", "(a=b(c)", "(a>=b*)", "(a~=*)", "(a:=b*c)", "(a=**)", "(a=*b**c)",
+        "(a=\\)", "(a=\\g0)", "(a=\\5c\\5C\\2a\\28\\29\\00)", "(2=x)", "(02=x)", "(1.=x)", "(1..2=x)", "(a;=x)", "(a;;b=x)",
+        "(a;b-;c=x)", "(-a=x)", "(a-=x)", "(1a=x)", "(a.b=x)", "(a =x)", "( a=x)", "(a= x )", "(a=b=c)", "(a==)", "(a>==)",
+        "(a:dn:2:=x)", "(a:dn::=x)", "(a::=x)", "(:dn:dn:=x)", "(:dn:dn:dn:=x)", "(:a:b:=x)", "(a:dn)", "(a:dn=x)",
+        "a:dn:=x", ":dn:=x", "!(a=b)", "&(a=b)", "(a=b)\0", "(\0=b)", "(a=\u{20ac}\\e2\\82\\ac)",
+    ];
+    for s in corpus {
+        check_string(&mut out, s.as_bytes(), "corpus");
+        mv_case(&mut out, s.as_bytes());
+    }
+    for s in [&b"(a=\xff\xfe)"[..], &b"(a=\xc4)"[..], &b"(\xffa=b)"[..]] {
+        check_string(&mut out, s, "corpus");
+    }
+    for s in ["((a=v))", "((a=v)(b=x))", "((a=*v)(2.5.4.3:dn:=x))", "(a=v)", "()", "((a=v)", "((a=v)))", "((&(a=v)))", "((a=v)x)", "((a=\\2a\\28))", "(a=v)(b=x)"] {
+        mv_case(&mut out, s.as_bytes());
+    }
+    // the dnattrs keyword in other cases (RFC 5234: literals are case-insensitive)
+    for (s, lower) in [("(cn:DN:=x)", "(cn:dn:=x)"), ("(cn:Dn:2.4.6:=x)", "(cn:dn:2.4.6:=x)"), ("(:dN:caseExactMatch:=x)", "(:dn:caseExactMatch:=x)")] {
+        dn_case_check(&mut out, s.as_bytes(), lower.as_bytes());
+    }
+    // deep nesting (each level is a native recursion of the real parser)
+    for d in [1usize, 10, 63, 64, 100, 500, 2000] {
+        let mut s = vec![];
+        for _ in 0..d {
+            s.extend(b"(!");
+        }
+        s.extend(b"(a=b)");
+        for _ in 0..d {
+            s.push(b')');
+        }
+        check_string(&mut out, &s, "nest");
+    }
+
+    // ---- (i) exhaustive short strings over the alphabet
+    let maxlen = if thorough { 7 } else { 5 };
+    for len in 0..=maxlen.min(2) {
+        for idx in 0..23usize.pow(len as u32) {
+            let mut s = vec![];
+            word(len, idx, &mut s);
+            check_string(&mut out, &s, "exhaustive");
+        }
+    }
+    for len in 3..=maxlen {
+        let k = if len >= 5 { 3 } else { 2 };
+        let plen = len - k;
+        let nprefix = 23usize.pow(plen as u32);
+        // subsample the prefixes when the level has more than ~7e6 strings
+        let level = nprefix as u64 * 23u64.pow(k as u32);
+        let stride_den: u64 = if level > 7_000_000 { (level + 2_999_999) / 3_000_000 } else { 1 };
+        for p in 0..nprefix {
+            if stride_den > 1 && !rng.chance(1, stride_den) {
+                continue;
+            }
+            let mut pre = vec![];
+            word(plen, p, &mut pre);
+            if k == 3 {
+                batch3(&mut out, &pre, len <= 5);
+            } else {
+                batch2(&mut out, &pre, true);
+            }
+        }
+    }
+
+    // ---- (ii) random syntax trees, every escaping choice, with / without outer parentheses
+    let ntrees = if thorough { 200_000 } else { 6_000 };
+    let mut valid: Vec<Vec<u8>> = vec![];
+    for n in 0..ntrees {
+        let lib_ext = n % 4 == 3;
+        let d = rng.below(6) as u32;
+        let t = gen_tree(&mut rng, d, lib_ext);
+        let bare = is_item(&t) && rng.chance(1, 2);
+        let s = render(&t, &mut rng, bare, false);
+        let got = real(&s);
+        out.case(&hex(&s), true);
+        out.stat(&format!("tree.depth={}", tree_depth(&t)));
+        out.stat(if lib_ext { "tree.lib-dialect" } else { "tree.rfc" });
+        if bare {
+            out.stat("tree.bare-item");
+        }
+        out.m(&format!("filter.parse {}", hex(&s)), &got.show());
+        match &got {
+            Outc::Ok(ber) => {
+                // the BER decodes (Lean spec decoder) to the generator's tree
+                out.o(&format!("spec.filter.print {}", hex(ber)), &hex(&canon(&t)));
+                out.r("filter.tree.norm-agrees", norm_top(&s) == canon(&t), &short(&s));
+            }
+            _ => out.r(&format!("filter.accepts-grammar {}", short(&s)), false, &format!("valid rendering not accepted: {}", got.show())),
+        }
+        if valid.len() < 4000 && s.len() < 200 {
+            valid.push(s.clone());
+        }
+        // matched-values form: a list of parenthesised items
+        if n % 10 == 0 {
+            let k = rng.range(1, 4);
+            let mut mv = vec![b'('];
+            for _ in 0..k {
+                let it = gen_item(&mut rng, lib_ext);
+                mv.extend(render(&it, &mut rng, false, true));
+            }
+            mv.push(b')');
+            mv_case(&mut out, &mv);
+            let m = mutate(&mut rng, &mv);
+            mv_case(&mut out, &m);
+        }
+    }
+
+    // ---- (iii) random bytes
+    let nrand = if thorough { 500_000 } else { 15_000 };
+    for _ in 0..nrand {
+        let n = rng.below(20) as usize;
+        let s: Vec<u8> = if rng.chance(1, 2) {
+            rng.bytes(n)
+        } else {
+            (0..n).map(|_| if rng.chance(4, 5) { *rng.pick(&ALPHABET) } else { rng.next() as u8 }).collect()
+        };
+        check_string(&mut out, &s, "random");
+    }
+
+    // ---- (iv) single-character mutations of valid strings
+    let nmut = if thorough { 500_000 } else { 20_000 };
+    for _ in 0..nmut {
+        let base = rng.pick(&valid).clone();
+        let s = mutate(&mut rng, &base);
+        check_string(&mut out, &s, "mutation");
+    }
+    out.finish("exhaustive strings over ( ) & | ! = * \\ : ; . - ~ < > a d n 0 2 f NUL 0xff up to length 5 (quick) / 7 (thorough, longest levels subsampled by prefix), random RFC 4515 syntax trees (depth <= 5, width <= 5) rendered with a random literal / \\hh / \\HH / mixed choice per value octet and with or without outer parentheses for items, random byte strings, single-character mutations of valid strings, corpus of unit-test strings and past witnesses; matched-values lists; non-trivial = accepted, or at least 3 octets; distinct by FNV hash of the string");
 }
